@@ -652,3 +652,291 @@ def replay(cj):
         print("  ->", show(obs))
         return True
     return False
+
+
+# --------------------------------------------------------------------------------------------------------- C08: encode, then detect
+AUTODETECT_TARGETS = [("latin-1", "café déjà vu ☃"), ("iso-8859-1", "naïve Ω"), ("windows-1252", "“quoted” – €5"), ("cp1252", "Œuvre ☃"),
+                      ("utf-8", "Привет, мир ☃"), ("utf8", "日本語"), ("ascii", "café"), ("us-ascii", "plain")]
+ADVERSARIAL_PREFIXES = [
+    ("bom-lookalike", "ÿþ"), ("bom-lookalike-utf8", "ï»¿"), ("bom-lookalike-be", "þÿ"), ("text-first", "hello é "),
+    ("stale-xml-declaration", '<?xml version="1.0" encoding="latin-1"?>'), ("stale-xml-declaration-unknown", '<?xml version="1.0" encoding="koi8-r"?>'),
+    ("xml-declaration-no-encoding", '<?xml version="1.0"?>'),
+    ("declaration-in-comment", '<!-- <meta charset="latin-1"> -->'), ("declaration-in-script", '<script>var s = "<meta charset=latin-1>";</script>'),
+    ("escaped-in-title", "<title>&lt;meta charset=latin-1&gt;</title>"), ("comment-plain", "<!-- nothing to see -->"),
+    ("meta-without-charset", '<meta name="viewport" content="width=device-width"/>'),
+    ("doctype", "<!DOCTYPE html>"),
+]
+ADVERSARIAL_TAGS = [
+    ("later-attribute-value", '<meta charset="x" x="charset=latin-1"/>'), ("later-attribute-name", '<meta charset="x" data-charset="latin-1"/>'),
+    ("extra-attribute", '<meta charset="x" id="m"/>'), ("empty-charset", '<meta charset=""/>'),
+]
+
+
+def autodetect_cases(ctx):
+    """C08_autodetect_declared / _rendering evaluated on generated instances: documents are rendered by the real library
+    (soup.encode(target), target one of the four encoders defined in Coq, any modelled spelling), the bytes are split at
+    the rewritten <meta> tag, the model evaluates the theorem's hypotheses in decidable form (21010: no byte-order mark,
+    declaration inside the first max(2048, 5 %) bytes, no XML declaration naming an encoding in the first 1024 bytes, no
+    earlier text the html pattern matches) and - for instances inside the domain - the conclusion is checked on the real
+    library: UnicodeDammit / BeautifulSoup detect exactly that name, the text is the decoding of the bytes, the flag is off."""
+    if not ctx.build.model_ok or not chardet_absent():
+        return
+    from bs4 import BeautifulSoup
+    from bs4.dammit import UnicodeDammit
+    from props import c08, c08_r4
+    rng = ctx.rng
+    tags = {}
+    keys = [(st, nm) for st in (0, 1) for nm, _ in AUTODETECT_TARGETS]
+    for (st, nm), mv in zip(keys, ctx.model.run([[21011, st, nm] for st, nm in keys])):
+        tags[(st, nm)] = bytes(mv)
+    docs = []      # (family, note, soup, enc, style)
+    # (1) declarations at controlled byte offsets (the documents of c08_r4), both styles, four kinds of material in front
+    offsets = [300, 1000, 1023, 1024, 1025, 1536, 2000, 2030, 2040, 2047, 2048, 2049, 2100, 2300]
+    fills = ["title-ascii", "title-references", "comment", "head-elements"]
+    plan = [(t, f, 0) for t in offsets for f in (fills if ctx.thorough else rng.sample(fills, 2))]
+    for total in ((60000, 100000) if ctx.thorough else (60000,)):
+        w = int(total * 0.05)
+        plan += [(w - 400, rng.choice(fills), total), (w - 30, rng.choice(fills), total), (w + 600, rng.choice(fills), total)]
+    for tgt, fill, total in plan:
+        enc, body = rng.choice(AUTODETECT_TARGETS)
+        st = rng.choice([0, 1])
+        style_fn = c08_r4.META_STYLES[st][1]
+        n = max(tgt - 80, 1)
+        d = None
+        for _ in range(4):
+            d = c08_r4.build_offset_doc(style_fn, fill, n, body, max(total - tgt, 0))
+            r = c08.call(c08.build_doc(d).encode, enc)
+            if r[0] != "ok":
+                break
+            i = r[1].find(tags[(st, enc)])
+            if i < 0:
+                break
+            delta = tgt - (i + len(tags[(st, enc)]))
+            if abs(delta) <= (1 if fill in ("title-ascii", "comment") else 45):
+                break
+            n = max(n + delta, 1)
+        docs.append(("offset", {"wanted_end_offset": tgt, "in_front": fill, "total": total, "doc": d}, c08.build_doc(d), enc, st))
+    # (2) adversarial material in front of / inside the declaration (parsed by html.parser, so the tree is the library's own)
+    for label, prefix in ADVERSARIAL_PREFIXES:
+        for enc, body in rng.sample(AUTODETECT_TARGETS, 3 if not ctx.thorough else len(AUTODETECT_TARGETS)):
+            for st, tagsrc in ((0, '<meta charset="koi8-r"/>'), (1, '<meta http-equiv="Content-Type" content="text/html; charset=koi8-r"/>')):
+                markup = prefix + "<head>" + tagsrc + "</head><p>" + body + "</p>"
+                docs.append(("adversarial-prefix", {"what": label, "markup": markup}, c08.make_soup(markup), enc, st))
+    for label, tagsrc in ADVERSARIAL_TAGS:
+        for enc, body in rng.sample(AUTODETECT_TARGETS, 2):
+            markup = "<head>" + tagsrc + "</head><p>" + body + "</p>"
+            docs.append(("adversarial-tag", {"what": label, "markup": markup}, c08.make_soup(markup), enc, 0))
+    cmds, info = [], []
+    for family, note, soup, enc, st in docs:
+        r = c08.call(soup.encode, enc)
+        case = dict(note, family=family, encoding=enc, meta_style=("charset", "content")[st], theorem="C08_autodetect_declared")
+        case.pop("doc", None)
+        ctx.case(("cd-autodetect", family, repr(note.get("markup") or (note.get("wanted_end_offset"), note.get("in_front"), note.get("total"))), enc, st))
+        if r[0] != "ok":
+            ctx.disagree("soup.encode(target) ~ C08_concrete_entry_points_never_raise", case, r[1], "bytes")
+            continue
+        b = r[1]
+        i = b.find(tags[(st, enc)])
+        if i < 0:
+            ctx.count("cd_autodetect_outside_tag_shape")          # e.g. another attribute inside the tag: not the theorem's tag
+            continue
+        bpre, bpost = b[:i], b[i + len(tags[(st, enc)]):]
+        cmds.append([21010, st, enc, bpre, bpost])
+        info.append((case, b, enc, i))
+    ctx.count("cd_autodetect_instances", len(cmds))
+    second, second_info = [], []
+    for (case, b, enc, i), mv in zip(info, ctx.model.run(cmds, chunk=50)):
+        if merr(mv):
+            ctx.disagree("hypotheses of C08_autodetect_declared (21010)", case, "7 values", repr(mv)[:80])
+            continue
+        in_names, no_bom, in_window, no_xml, no_meta, allc, window = mv
+        case = dict(case, bytes_hex=None, output_bytes=len(b), tag_at=i, search_window=window,
+                    hypotheses={"name_modelled": bool(in_names), "no_bom": bool(no_bom), "in_window": bool(in_window),
+                                "no_xml_declaration": bool(no_xml), "no_earlier_match": bool(no_meta)})
+        if len(b) <= 4000:
+            case["data_hex"] = b.hex()
+        # the window the model computed is the code's: max(2048, int(len * 0.05))
+        if window != max(2048, int(len(b) * 0.05)):
+            ctx.disagree("search window ~ Model.Autodetect.html_window", case, max(2048, int(len(b) * 0.05)), window)
+        with warnings.catch_warnings():
+            warnings.simplefilter("ignore")
+            d = UnicodeDammit(b, is_html=True)
+            soup2 = BeautifulSoup(b, "html.parser")
+        obs = {"orig": d.original_encoding, "declared": d.declared_html_encoding, "flag": d.contains_replacement_characters,
+               "text_is_decoding": d.unicode_markup == b.decode(enc), "ctor_orig": soup2.original_encoding}
+        want = {"orig": enc, "declared": enc, "flag": False, "text_is_decoding": True, "ctor_orig": enc}
+        if allc and in_names:
+            ctx.count("cd_autodetect_in_domain")
+            if obs != want:
+                ctx.disagree("conclusion of C08_autodetect_declared on the implementation (instance inside the theorem's domain)",
+                             case, obs, want)
+        else:
+            why = [k for k, v in case["hypotheses"].items() if not v][0]
+            ctx.count("cd_autodetect_outside_" + why)
+            ctx.count("cd_autodetect_outside_and_detected_" + ("right" if obs == want else "wrong"))
+        # the fully concrete model on the same bytes, inside or outside the domain (when every name the run meets - mark,
+        # declaration, candidates - is one on which the model and codecs.lookup agree)
+        if case_supported(ctx, b, [bom_name(b)] if bom_name(b) else [], list(d.detector.encodings) + ([obs["declared"]] if obs["declared"] else [])):
+            second.append(dammit_cmd(b, [], [], [], [], True))
+            second_info.append((dict(case, api="UnicodeDammit", concrete=True, data_hex=b.hex() if len(b) <= 8000 else None), b))
+        else:
+            ctx.count("cd_autodetect_redetection_outside_model_names")
+    for (case, b), mv in zip(second_info, ctx.model.run(second, chunk=200)):
+        compare_dammit(ctx, case, observe_dammit(b, [], [], [], [], True), mv,
+                       name="UnicodeDammit(soup.encode(target)) ~ Model.Codecs.c_dammit (re-detection of rendered bytes)")
+    ctx.sample({"autodetect_instances": "declarations ending at byte offsets %s (+ around the 5 %% mark of 60 kB documents) behind four kinds of head "
+                                        "material, both declaration styles, 8 spellings of the 4 targets; %d kinds of adversarial material in front "
+                                        "(mark look-alikes, stale XML declarations, declarations inside comments / scripts) and %d tag variants"
+                                        % (offsets, len(ADVERSARIAL_PREFIXES), len(ADVERSARIAL_TAGS))})
+
+
+# --------------------------------------------------------------------------------------------------------- C07: call shapes
+SHAPE_NAMES = ["latin-1", "latin1", "iso-8859-1", "cp1252", "windows-1252", "windows_1252", "ascii", "us-ascii", "utf-8", "utf8",
+               "utf_8", "utf-16le", "utf-16be", "utf-32le", "utf-32be", "utf_16le"]
+UNKNOWN_DECLARED = ["bogus-8", "no-such-codec", "utf-9", "x-unknown"]
+
+
+def shape_cases(ctx):
+    """C07_known_encoding_detection / _from_encoding_detection / _declared_encoding_detection / _excluded_encodings_detection /
+    _unknown_declared_encoding_detection evaluated on generated instances: the model (21012) evaluates each theorem's
+    hypotheses (name modelled, bytes non-empty, no byte-order mark, what the modelled sniffer finds) and its closed-form
+    right-hand side [concrete_outcome ...]; for every instance inside the domain the real UnicodeDammit (and, for shape 0, the
+    BeautifulSoup constructor with from_encoding) must return exactly that (text, original_encoding, flag)."""
+    if not ctx.build.model_ok or not chardet_absent():
+        return
+    from bs4 import BeautifulSoup
+    from bs4.exceptions import ParserRejectedMarkup
+    rng = ctx.rng
+    bodies = [b"", b"abc", b"caf\xc3\xa9", b"caf\xe9", b"caf\xe9\x81", b"\x93x\x94", b"\x81", b"\xe2\x82", b"\xff\xfe", b"\xff\xfea\x00",
+              b"\xef\xbb\xbfx", b"<p>\xc3\xa9\x81</p>", b"\x00\xd8\x00\xdc", b"a\x00b\x00", b"\x00\x00\x00a", b"\xf0\x9f\x98\x80", b"\xed\xa0\x80"]
+    bodies += FRAGMENTS
+    for _ in range(400 if ctx.thorough else 120):
+        c = rng.random()
+        if c < 0.4:
+            bodies.append(bytes(rng.choice(ADVERSARIAL) for _ in range(rng.randint(1, 8))))
+        elif c < 0.7:
+            t = "".join(rng.choice(TEXT_POOL) for _ in range(rng.randint(1, 6)))
+            bodies.append(t.encode(rng.choice(["utf-8", "latin-1", "windows-1252", "utf-16-le", "utf-32-be"]), "ignore"))
+        else:
+            bodies.append(bytes(rng.randrange(256) for _ in range(rng.randint(1, 10))))
+    bodies = list(dict.fromkeys(bodies))
+    inst = []           # (shape, name, exclude, data)
+    for body in bodies:
+        e = rng.choice(SHAPE_NAMES)
+        inst.append((0, e, [], body))
+        inst.append((0, rng.choice(["ascii", "latin-1", "utf-8", "windows-1252"]), [], body))
+        d = rng.choice(SHAPE_NAMES)
+        decl = rng.choice(['<meta charset="%s">', "<meta http-equiv='Content-Type' content='text/html; charset=%s'>",
+                           '<?xml version="1.0" encoding="%s"?>']) % d
+        inst.append((1, d, [], decl.encode("ascii") + body))
+        X = rng.choice([["utf-8"], ["windows-1252"], ["UTF-8", "Windows-1252"], ["utf-8", "windows-1252"], ["latin-1"], ["utf8"], []])
+        inst.append((2, "", X, body))
+        u = rng.choice(UNKNOWN_DECLARED)
+        inst.append((3, u, [], ('<meta charset="%s">' % u).encode("ascii") + body))
+    res = ctx.model.run([[21012, sh, nm, ex, data] for sh, nm, ex, data in inst], chunk=2000)
+    dom = {0: 0, 1: 0, 2: 0, 3: 0}
+    for (sh, nm, ex, data), mv in zip(inst, res):
+        case = {"theorem": ["C07_known_encoding_detection", "C07_declared_encoding_detection", "C07_excluded_encodings_detection",
+                            "C07_unknown_declared_encoding_detection"][sh],
+                "data_hex": data.hex(), "known": [nm] if sh == 0 else [], "user": [], "exclude": ex, "override": [], "is_html": True,
+                "api": "UnicodeDammit", "concrete": True, "named": nm}
+        ctx.case(("cd-shape", sh, nm, tuple(ex), data))
+        if merr(mv):
+            ctx.disagree("hypotheses / right-hand side of the C07 call-shape theorems (21012)", case, "6 values", repr(mv)[:80])
+            continue
+        in_names, nonempty, no_mark, decl, unknown, rhs = mv
+        decl, unknown = s_(unopt(decl)), s_(unopt(unknown))
+        want = {"text": s_(unopt(rhs[0])), "orig": s_(unopt(rhs[1])), "flag": bool(rhs[2])}
+        base = bool(nonempty) and bool(no_mark)
+        if sh == 0:
+            inside = base and bool(in_names) and decl is None
+        elif sh == 1:
+            inside = base and bool(in_names) and decl == nm
+        elif sh == 2:
+            inside = base and decl is None
+        else:
+            # the declared name must be unknown to Python too (the model's notion of "not a modelled codec" alone is not enough)
+            inside = base and decl == nm and unknown is not None and all(py_codec(v) is None for v in name_variants(nm) if v)
+        if not inside:
+            ctx.count("cd_shape%d_outside_domain" % sh)
+            continue
+        dom[sh] += 1
+        obs = observe_dammit(data, [nm] if sh == 0 else [], [], ex, [], True)
+        got = {k: obs[k] for k in ("text", "orig", "flag")} if isinstance(obs, dict) else obs
+        if got != want:
+            ctx.disagree("conclusion of %s on the implementation (instance inside the theorem's domain)" % case["theorem"],
+                         case, show(got), show(want))
+        if sh in (1, 3) and isinstance(obs, dict) and obs["declared"] != decl:
+            ctx.disagree("declared_html_encoding ~ conclusion of %s" % case["theorem"], case, obs["declared"], decl)
+        if sh == 0:
+            # BeautifulSoup(data, from_encoding=name): C07_from_encoding_detection
+            with warnings.catch_warnings():
+                warnings.simplefilter("ignore")
+                try:
+                    soup = BeautifulSoup(data, "html.parser", from_encoding=nm)
+                    cobs = {"orig": soup.original_encoding, "flag": soup.contains_replacement_characters}
+                except ParserRejectedMarkup:
+                    cobs = "REJECTED" if want["text"] is None else None      # html.parser itself may refuse the decoded text
+                except Exception as ex_:          # noqa: BLE001
+                    cobs = "EXC:" + type(ex_).__name__
+            cwant = "REJECTED" if want["text"] is None else {"orig": want["orig"], "flag": want["flag"]}
+            if cobs is not None and cobs != cwant:
+                ctx.disagree("conclusion of C07_from_encoding_detection on the implementation", dict(case, api="BeautifulSoup", from_encoding=nm),
+                             cobs, cwant)
+    for sh, n in dom.items():
+        ctx.count("cd_shape%d_in_domain" % sh, n)
+    ctx.count("cd_shape_instances", len(inst))
+
+
+# --------------------------------------------------------------------------------------------------------- C08: byte-order mark
+def bom_cases(ctx):
+    """C08_autodetect_bom on generated instances: strings (first character from the classes low-byte-zero / high-byte-zero /
+    astral / lone surrogate / U+0000, then random text) are encoded by the model (21013) and by
+    str.encode("utf-16" / "utf-32", "xmlcharrefreplace"); the bytes must be equal; for instances inside the theorem's domain
+    (non-empty; for UTF-16 the first character is not U+0000) the real UnicodeDammit must report utf-16le / utf-32le, flag
+    off, and the text must be the decoding; the concrete model is run on the same bytes."""
+    if not ctx.build.model_ok or not chardet_absent():
+        return
+    rng = ctx.rng
+    firsts = [0x41, 0x3c, 0xe9, 0xff, 0x100, 0x400, 0x3000, 0x4e00, 0xfeff, 0xfffe, 0xffff, 0x10000, 0x1f600, 0x10ffff, 0xd800, 0xdfff, 0x0, 0x26]
+    strs = [""]
+    for c in firsts:
+        strs.append(chr(c))
+        strs.append(chr(c) + "".join(rng.choice(TEXT_POOL) for _ in range(rng.randint(0, 6))))
+        strs.append(chr(c) + '<meta charset="latin-1"/><p>é</p>')
+    for _ in range(300 if ctx.thorough else 60):
+        strs.append("".join(chr(rng.choice([rng.randrange(0x100), rng.randrange(0x3000), rng.randrange(0xd7f0, 0xe010), rng.randrange(0x110000)]))
+                            for _ in range(rng.randint(1, 6))))
+    strs = list(dict.fromkeys(strs))
+    cmds, info = [], []
+    for s in strs:
+        for w, enc in ((0, "utf-16"), (1, "utf-32")):
+            cmds.append([21013, w, s])
+            info.append((s, w, enc))
+    second, second_info = [], []
+    for (s, w, enc), mv in zip(info, ctx.model.run(cmds)):
+        p = s.encode(enc, "xmlcharrefreplace")
+        m = "MODEL-ERR" if merr(mv) else (bytes(mv[1]) if mv and mv[0] == 1 else None)
+        case = {"code_points": [ord(c) for c in s], "codec": enc, "errors": "xmlcharrefreplace", "theorem": "C08_autodetect_bom"}
+        ctx.case(("cd-bom", s, enc))
+        if p != m:
+            ctx.disagree("str.encode(%r, 'xmlcharrefreplace') ~ Model.Codecs.wide_encode" % enc, case, list(p), m if not isinstance(m, bytes) else list(m))
+            continue
+        inside = len(s) > 0 and not (w == 0 and s[0] == "\x00")
+        if not inside:
+            ctx.count("cd_bom_outside_domain")
+            continue
+        ctx.count("cd_bom_in_domain")
+        obs = observe_dammit(p, [], [], [], [], True)
+        want_name = "utf-16le" if w == 0 else "utf-32le"
+        got = {k: obs[k] for k in ("text", "orig", "flag")} if isinstance(obs, dict) else obs
+        want = {"text": p.decode(enc), "orig": want_name, "flag": False}
+        if got != want:
+            ctx.disagree("conclusion of C08_autodetect_bom on the implementation (instance inside the theorem's domain)",
+                         dict(case, data_hex=p.hex()), show(got), show(want))
+        if isinstance(obs, dict) and case_supported(ctx, p, [want_name], list(obs["cands"]) + ([obs["declared"]] if obs["declared"] else [])):
+            second.append(dammit_cmd(p, [], [], [], [], True))
+            second_info.append((dict(case, data_hex=p.hex(), known=[], user=[], exclude=[], override=[], is_html=True, api="UnicodeDammit", concrete=True), obs))
+    for (case, obs), mv in zip(second_info, ctx.model.run(second)):
+        compare_dammit(ctx, case, obs, mv, name="UnicodeDammit(s.encode('utf-16'/'utf-32')) ~ Model.Codecs.c_dammit")
+    ctx.count("cd_bom_instances", len(cmds))
